@@ -198,7 +198,7 @@ fn check_lookup(files: &[(usize, usize, bool, usize)], licenses: &[usize], path:
             if got_files != want_files || got_lics != want_lics {
                 out.push(viol("paragraph-roles-lossless", ctx(&format!("iter_files yields {:?} (expected {:?}), iter_licenses yields {:?} (expected {:?})", got_files, want_files, got_lics, want_lics))));
             }
-            for name in ["L0", "L1", "L2"] {
+            for name in ["L0", "L1", "L2", "L", "L00", "l0"] {
                 if c.find_license_by_name(name) != standalone(name) {
                     out.push(viol("licence-by-name-lossless", ctx(&format!("find_license_by_name({}) -> {:?}, expected {:?}", name, c.find_license_by_name(name), standalone(name)))));
                 }
@@ -216,7 +216,7 @@ fn check_lookup(files: &[(usize, usize, bool, usize)], licenses: &[usize], path:
             if got_lic != want_lic {
                 out.push(viol("licence-lossy", ctx(&format!("lossy find_license_for_file -> {:?}, expected {:?}", got_lic, want_lic))));
             }
-            for name in ["L0", "L1", "L2"] {
+            for name in ["L0", "L1", "L2", "L", "L00", "l0"] {
                 if c.find_license_by_name(name).cloned() != standalone(name) {
                     out.push(viol("licence-by-name-lossy", ctx(&format!("lossy find_license_by_name({}) -> {:?}, expected {:?}", name, c.find_license_by_name(name), standalone(name)))));
                 }
